@@ -1,19 +1,1013 @@
-//! Engine `threads` — not built yet (stub).
+//! Engine `threads` (C14) — judge mode.
+//!
+//! One case = N client threads (2–8) that use ONE database at the same time through the public API only
+//! (`Database::execute`, `Database::session` + `Session::{execute, commit_transaction, abort_transaction}`), each with its own small
+//! program, started together behind a barrier and paced by a seeded mix of spins / yields / short sleeps.  Every call is
+//! bracketed by two tickets of one global counter (taken immediately before the call is issued and immediately after it has
+//! returned), runs under a watchdog (10 s bound + 10 s grace, see GRACE_MS), and its outcome is recorded.  The observation is judged by the Lean driver
+//! (`Driver/Threads.lean`): no internal error, `checkSerialSI` accepts, final contents agree.
+//!
+//! Case syntax (one line):
+//!   threads <setup…> | t<i> <op> ; t<j> <op> ; …
+//!   setup  tab=<name>(<col>:<type>[!][*],…)   as engine `hist` (cfg/C04.py)
+//!          row=<table>:<v>,<v>,…              committed initial row
+//!          fill=<table>:<n>:<pad>             n more initial rows (1000+i, i, 'x'*pad), i = 1..n, table shape (k:big,v:int,p:text);
+//!                                             inserted by autocommit statements of 20 rows each (builds multi-level trees)
+//!          cache=<pages> pool=<workers> pace=<seed>
+//!   op     begin | commit | rollback          the thread's session (one transaction at a time)
+//!          <stmt>                             statement in the thread's open session
+//!          db <stmt>                          Database::execute (autocommit) from that thread
+//!          flush                              Database::flush from that thread
+//!          db subq <table>                    `SELECT * FROM <table> WHERE k IN (SELECT k FROM <table>)` (autocommit): a statement the
+//!                                             engine does not support; admissible outcome: an error (class `other`), no effect.
+//!                                             On this tree its evaluation panics (runtime/eval.rs) in the pool worker that runs it
+//!   stmt   as engine `hist`: sel | ins | upd | del
+//!   The op list is one list only for the sake of shrinking: what is executed is, per thread, the subsequence of its ops.
+//!
+//! Observation syntax:
+//!   <kind> <call> <call> … | <table>=[rows] …
+//!   kind   run | interr (some call failed with an unexpected class) | hang:<t<i>#<k>,…> (calls that did not return within
+//!          the bound plus grace; k = index within the thread) | panic@<file:line>[,hang:…] (first panic of any thread of the process during the case)
+//!   call   t<i>:<t0>:<t1>:<out>              out as engine `hist` (ok | ok<n> | [rows] | conflict | constraint | … | nosession)
+//!   final contents are read by the harness after all client threads have finished (absent after a hang: `-`)
+use super::hist::{self, Op as HOp, Stmt, Table};
 use super::{Case, Engine, Tier};
 use crate::rng::Rng;
+use axmosdb::runtime::QueryResult;
+use axmosdb::tcp::session::Session;
+use axmosdb::{DBConfig, DataType, Database};
+use std::sync::atomic::{AtomicBool, AtomicU64, Ordering};
+use std::sync::{Arc, Barrier, Mutex};
+use std::time::{Duration, Instant};
 
 pub struct ThreadsEngine;
 
-impl Engine for ThreadsEngine {
-    fn gen_cases(&self, _rng: &mut Rng, _tier: Tier) -> Vec<Case> {
-        Vec::new()
+pub fn generated() -> Option<(&'static str, String)> {
+    None
+}
+
+/// bound on one call
+const CALL_TIMEOUT_MS: u64 = 10_000;
+/// a call that is over the bound is given this much longer before it is declared hung: a deadlock never returns, a stall of
+/// the machine (seen by other engines while many builds were running) does; a call that returns late is reported in the
+/// diagnostics (`slow-call`) and judged like any other
+const GRACE_MS: u64 = 10_000;
+
+// ------------------------------------------------------------------------------------------------ case syntax
+
+#[derive(Clone, Debug)]
+enum TOp {
+    Begin,
+    Commit,
+    Rollback,
+    Exec(Stmt),
+    Auto(Stmt),
+    Flush,
+    SubQ(String),
+}
+
+struct Setup {
+    tables: Vec<Table>,
+    rows: Vec<(String, Vec<hist::Val>)>,
+    fills: Vec<(String, usize, usize)>,
+    cache: usize,
+    pool: usize,
+    pace: u64,
+}
+
+struct ParsedCase {
+    setup: Setup,
+    /// (thread id, op) in line order
+    ops: Vec<(usize, TOp)>,
+}
+
+fn parse_case(line: &str) -> Option<ParsedCase> {
+    let body = line.trim().strip_prefix("threads ")?;
+    let (setup_s, ops_s) = body.split_once('|')?;
+    let mut hist_words: Vec<&str> = Vec::new();
+    let mut st = Setup { tables: vec![], rows: vec![], fills: vec![], cache: 10000, pool: 4, pace: 0 };
+    for w in setup_s.split_whitespace() {
+        if let Some(v) = w.strip_prefix("cache=") {
+            st.cache = canon_num(v)? as usize;
+        } else if let Some(v) = w.strip_prefix("pool=") {
+            st.pool = canon_num(v)? as usize;
+            if st.pool == 0 || st.pool > 64 {
+                return None;
+            }
+        } else if let Some(v) = w.strip_prefix("pace=") {
+            st.pace = canon_num(v)?;
+        } else if let Some(v) = w.strip_prefix("fill=") {
+            let parts: Vec<&str> = v.split(':').collect();
+            if parts.len() != 3 {
+                return None;
+            }
+            let n = canon_num(parts[1])? as usize;
+            let pad = canon_num(parts[2])? as usize;
+            if n > 5000 || pad > 2000 {
+                return None;
+            }
+            st.fills.push((parts[0].to_string(), n, pad));
+        } else if w == "fresh" {
+            return None;
+        } else {
+            hist_words.push(w);
+        }
     }
-    fn exec(&mut self, _line: &str) -> String {
-        "unimplemented".into()
+    // tables and rows go through the `hist` parser
+    let (hs, _) = hist::parse_case(&format!("hist {} |", hist_words.join(" ")))?;
+    st.tables = hs.tables;
+    for it in hs.items {
+        match it {
+            hist::Item::Row(t, vals) => st.rows.push((t, vals)),
+            // constraints added after creation are not part of this engine's cases
+            hist::Item::Con(..) => return None,
+        }
+    }
+    // multi-column keys are not part of this engine's cases either (single-column `*` / `!` flags are)
+    if st.tables.iter().any(|t| !t.keys.is_empty()) {
+        return None;
+    }
+    for (t, _, _) in &st.fills {
+        let tab = st.tables.iter().find(|x| &x.name == t)?;
+        let shape: Vec<&str> = tab.cols.iter().map(|c| c.ty.as_str()).collect();
+        if shape != ["big", "int", "text"] {
+            return None;
+        }
+    }
+    let mut ops = Vec::new();
+    let ops_s = ops_s.trim();
+    if !ops_s.is_empty() {
+        for o in ops_s.split(" ; ") {
+            let o = o.trim();
+            let (tid_s, rest) = o.split_once(' ')?;
+            let tid = canon_num(tid_s.strip_prefix('t')?)? as usize;
+            if tid == 0 || tid > 16 {
+                return None;
+            }
+            let rest = rest.trim();
+            let op = match rest {
+                "begin" => TOp::Begin,
+                "commit" => TOp::Commit,
+                "rollback" => TOp::Rollback,
+                "flush" => TOp::Flush,
+                _ => {
+                    if let Some(t) = rest.strip_prefix("db subq ") {
+                        let t = t.trim();
+                        if !st.tables.iter().any(|x| x.name == t) {
+                            return None;
+                        }
+                        TOp::SubQ(t.to_string())
+                    } else if let Some(s) = rest.strip_prefix("db ") {
+                        if s.trim_start().starts_with("batch") {
+                            return None;
+                        }
+                        match hist::parse_case(&format!("hist | db {}", s))?.1.pop()? {
+                            HOp::Auto(st) => TOp::Auto(st),
+                            _ => return None,
+                        }
+                    } else {
+                        match hist::parse_case(&format!("hist | s1 {}", rest))?.1.pop()? {
+                            HOp::Exec(_, st) => TOp::Exec(st),
+                            _ => return None,
+                        }
+                    }
+                }
+            };
+            ops.push((tid, op));
+        }
+    }
+    Some(ParsedCase { setup: st, ops })
+}
+
+/// canonical decimal without sign or leading zeros
+fn canon_num(s: &str) -> Option<u64> {
+    let n: u64 = s.parse().ok()?;
+    if n.to_string() != s {
+        return None;
+    }
+    Some(n)
+}
+
+fn sql_create(t: &Table) -> String {
+    let mut cols: Vec<String> = Vec::new();
+    let mut uniq: Vec<String> = Vec::new();
+    for c in &t.cols {
+        let ty = match c.ty.as_str() {
+            "big" => "BIGINT",
+            "int" => "INT",
+            _ => "TEXT",
+        };
+        cols.push(format!("{} {}{}", c.name, ty, if c.not_null { " NOT NULL" } else { "" }));
+        if c.unique {
+            uniq.push(format!("UNIQUE({})", c.name));
+        }
+    }
+    cols.extend(uniq);
+    format!("CREATE TABLE {} ({})", t.name, cols.join(", "))
+}
+
+// ------------------------------------------------------------------------------------------------ outcome classes
+
+/// Error classes, read off the `Display` text (the task runner hands every error over as a string), as in engine `hist`.
+fn err_class(msg: &str) -> &'static str {
+    let m = msg.to_ascii_lowercase();
+    if m.contains("conflict") {
+        "conflict"
+    } else if m.contains("constraint validation error") || m.contains("unique") || m.contains("not null") || m.contains("null constraint") {
+        "constraint"
+    } else if m.contains("not found") || m.contains("does not exist") || m.contains("notfound") {
+        "notfound"
+    } else if m.contains("type error") || m.contains("cast") || m.contains("type mismatch") || m.contains("datatype") {
+        "type"
+    } else {
+        "other"
     }
 }
 
-/// Content of `lean/AxVerif/Generated/<Engine>.lean`, if this engine extracts constants from the code.
-pub fn generated() -> Option<(&'static str, String)> {
-    None
+fn show_dt(d: &DataType) -> String {
+    match d {
+        DataType::Null => "null".into(),
+        DataType::Int(v) => v.value().to_string(),
+        DataType::BigInt(v) => v.value().to_string(),
+        DataType::UInt(v) => v.value().to_string(),
+        DataType::BigUInt(v) => v.value().to_string(),
+        DataType::Blob(b) => format!("'{}'", String::from_utf8_lossy(b.data().unwrap_or(&[]))),
+        other => format!("?{:?}", other).replace(' ', "_"),
+    }
+}
+
+/// long pad texts are abbreviated `'<c>*<n>'` when they consist of n > 8 copies of one letter (keeps observation lines short)
+fn abbreviate(s: String) -> String {
+    let b = s.as_bytes();
+    if b.len() > 10 && b[0] == b'\'' && b[b.len() - 1] == b'\'' && b[1..b.len() - 1].iter().all(|c| *c == b[1]) {
+        format!("'{}*{}'", b[1] as char, b.len() - 2)
+    } else {
+        s
+    }
+}
+
+fn show_result(r: Result<QueryResult, String>, is_read: bool, diag: &mut Vec<String>) -> String {
+    match r {
+        Ok(QueryResult::Rows(rows)) => {
+            let mut out: Vec<String> =
+                rows.iterrows().map(|r| r.iter().map(|d| abbreviate(show_dt(d))).collect::<Vec<_>>().join(",")).collect();
+            out.sort();
+            format!("[{}]", out.join(";"))
+        }
+        Ok(QueryResult::RowsAffected(n)) => {
+            if is_read { format!("?affected{}", n) } else { format!("ok{}", n) }
+        }
+        Ok(QueryResult::Ddl(_)) => "ddl".into(),
+        Err(e) => {
+            diag.push(e.chars().filter(|c| *c != '\n').take(160).collect());
+            err_class(&e).to_string()
+        }
+    }
+}
+
+// ------------------------------------------------------------------------------------------------ panic capture
+
+/// Panics of ANY thread of the process (pool workers of the database included) are recorded here; the hook installed by
+/// `main.rs` only keeps a thread-local note, which a worker thread's panic would never reach the case's thread with.
+static PANICS: Mutex<Vec<String>> = Mutex::new(Vec::new());
+static HOOKED: AtomicBool = AtomicBool::new(false);
+
+fn install_hook() {
+    if HOOKED.swap(true, Ordering::SeqCst) {
+        return;
+    }
+    let prev = std::panic::take_hook();
+    std::panic::set_hook(Box::new(move |info| {
+        let loc = info
+            .location()
+            .map(|l| {
+                let f = l.file();
+                let f = f.rsplit_once("/src/").map(|x| x.1).unwrap_or(f);
+                format!("{}:{}", f, l.line())
+            })
+            .unwrap_or_else(|| "?".into());
+        if let Ok(mut p) = PANICS.lock() {
+            p.push(loc);
+        }
+        prev(info);
+    }));
+}
+
+// ------------------------------------------------------------------------------------------------ scratch directories
+
+static COUNTER: AtomicU64 = AtomicU64::new(0);
+
+fn scratch_dir() -> std::path::PathBuf {
+    let n = COUNTER.fetch_add(1, Ordering::SeqCst);
+    if n == 0 {
+        // exec children that were killed (hang) could not remove their directories: sweep those of dead processes
+        if let Ok(rd) = std::fs::read_dir(std::env::temp_dir()) {
+            for e in rd.flatten() {
+                let name = e.file_name().to_string_lossy().to_string();
+                if let Some(rest) = name.strip_prefix("axv-threads-") {
+                    let pid = rest.split('-').next().unwrap_or("");
+                    if !pid.is_empty() && !std::path::Path::new("/proc").join(pid).exists() {
+                        let _ = std::fs::remove_dir_all(e.path());
+                    }
+                }
+            }
+        }
+    }
+    let d = std::env::temp_dir().join(format!("axv-threads-{}-{}", std::process::id(), n));
+    let _ = std::fs::remove_dir_all(&d);
+    std::fs::create_dir_all(&d).unwrap();
+    d
+}
+
+// ------------------------------------------------------------------------------------------------ execution
+
+struct CallRec {
+    t0: u64,
+    t1: u64,
+    out: String,
+    /// the statement is one that has to fail (subq): `other` is its admissible outcome
+    must_fail: bool,
+}
+
+struct ThreadShared {
+    /// 0 = no call in flight; else 1 + milliseconds since the case started at which the current call was issued
+    in_call_since: AtomicU64,
+    done: AtomicBool,
+    recs: Mutex<Vec<CallRec>>,
+    diag: Mutex<Vec<String>>,
+}
+
+fn pace(rng: &mut Rng) {
+    match rng.below(10) {
+        0..=3 => {}
+        4 | 5 => std::thread::yield_now(),
+        6..=8 => {
+            let us = rng.range(1, 60) as u64;
+            let t = Instant::now();
+            while (t.elapsed().as_micros() as u64) < us {
+                std::hint::spin_loop();
+            }
+        }
+        _ => std::thread::sleep(Duration::from_micros(rng.range(50, 600) as u64)),
+    }
+}
+
+fn client(
+    db: Arc<Database>,
+    ops: Vec<TOp>,
+    mut rng: Rng,
+    sh: Arc<ThreadShared>,
+    ticket: Arc<AtomicU64>,
+    start: Instant,
+    barrier: Arc<Barrier>,
+) {
+    let mut session: Option<Session> = None;
+    barrier.wait();
+    for op in ops {
+        pace(&mut rng);
+        let mut diag: Vec<String> = Vec::new();
+        sh.in_call_since.store(1 + start.elapsed().as_millis() as u64, Ordering::SeqCst);
+        let t0 = ticket.fetch_add(1, Ordering::SeqCst);
+        let out = match &op {
+            TOp::Begin => {
+                // an open transaction of this thread is dropped first (= rollback)
+                session = None;
+                match db.session() {
+                    Ok(s) => {
+                        session = Some(s);
+                        "ok".to_string()
+                    }
+                    Err(e) => {
+                        diag.push(e.to_string().chars().take(160).collect());
+                        err_class(&e.to_string()).to_string()
+                    }
+                }
+            }
+            TOp::Commit => match session.take() {
+                None => "nosession".into(),
+                Some(mut s) => match s.commit_transaction() {
+                    Ok(()) => "ok".to_string(),
+                    Err(e) => {
+                        diag.push(e.to_string().chars().take(160).collect());
+                        err_class(&e.to_string()).to_string()
+                    }
+                },
+            },
+            TOp::Rollback => match session.take() {
+                None => "nosession".into(),
+                Some(mut s) => match s.abort_transaction() {
+                    Ok(()) => "ok".to_string(),
+                    Err(e) => {
+                        diag.push(e.to_string().chars().take(160).collect());
+                        err_class(&e.to_string()).to_string()
+                    }
+                },
+            },
+            TOp::Exec(st) => match session.as_mut() {
+                None => "nosession".into(),
+                Some(s) => {
+                    let r = s.execute(&hist::sql_of(st)).map_err(|e| e.to_string());
+                    show_result(r, matches!(st, Stmt::Sel { .. }), &mut diag)
+                }
+            },
+            TOp::Auto(st) => {
+                let r = db.execute(&hist::sql_of(st)).map_err(|e| e.to_string());
+                show_result(r, matches!(st, Stmt::Sel { .. }), &mut diag)
+            }
+            TOp::SubQ(t) => {
+                let r = db.execute(&format!("SELECT * FROM {} WHERE k IN (SELECT k FROM {})", t, t)).map_err(|e| e.to_string());
+                show_result(r, true, &mut diag)
+            }
+            TOp::Flush => match db.flush() {
+                Ok(()) => "ok".to_string(),
+                Err(e) => {
+                    diag.push(e.to_string().chars().take(160).collect());
+                    err_class(&e.to_string()).to_string()
+                }
+            },
+        };
+        let t1 = ticket.fetch_add(1, Ordering::SeqCst);
+        let since = sh.in_call_since.swap(0, Ordering::SeqCst);
+        let took = (1 + start.elapsed().as_millis() as u64).saturating_sub(since);
+        if took > CALL_TIMEOUT_MS {
+            diag.push(format!("slow-call {}ms", took));
+        }
+        sh.recs.lock().unwrap().push(CallRec { t0, t1, out, must_fail: matches!(op, TOp::SubQ(_)) });
+        if !diag.is_empty() {
+            sh.diag.lock().unwrap().extend(diag);
+        }
+    }
+    // a transaction left open ends with the thread (Session::drop = rollback)
+    sh.in_call_since.store(1 + start.elapsed().as_millis() as u64, Ordering::SeqCst);
+    drop(session);
+    sh.in_call_since.store(0, Ordering::SeqCst);
+    sh.done.store(true, Ordering::SeqCst);
+}
+
+/// runs `f` on a helper thread; `None` if it does not return within the call time-out
+fn with_timeout<T: Send + 'static>(f: impl FnOnce() -> T + Send + 'static) -> Option<T> {
+    let (tx, rx) = std::sync::mpsc::channel();
+    std::thread::spawn(move || {
+        let _ = tx.send(f());
+    });
+    rx.recv_timeout(Duration::from_millis(CALL_TIMEOUT_MS + GRACE_MS)).ok()
+}
+
+pub fn run_case(line: &str) -> String {
+    let Some(pc) = parse_case(line) else { return "bad-op".into() };
+    install_hook();
+    let dir = scratch_dir();
+    let out = run_in(&dir, pc);
+    // after a hang the stuck threads keep the database (and its files) alive; the directory is swept by a later process
+    if !out.split(' ').next().unwrap_or("").contains("hang:") {
+        let _ = std::fs::remove_dir_all(&dir);
+    }
+    out
+}
+
+fn run_in(dir: &std::path::Path, pc: ParsedCase) -> String {
+    PANICS.lock().unwrap().clear();
+    let setup = &pc.setup;
+    let cfg = DBConfig::builder().cache_size(setup.cache).pool_size(setup.pool).build();
+    let db = match Database::create(dir.join("db.axm"), cfg) {
+        Ok(d) => d,
+        Err(e) => return format!("create-failed ## {}", e),
+    };
+    for t in &setup.tables {
+        if let Err(e) = db.execute(&sql_create(t)) {
+            return format!("bad-setup ## {}", e);
+        }
+    }
+    // warm-up: some transaction with id > 0 has committed
+    let _ = db.execute("CREATE TABLE warmupzz (k BIGINT)");
+    for (t, vals) in &setup.rows {
+        let s = Stmt::Ins { table: t.clone(), rows: vec![vals.clone()] };
+        if let Err(e) = db.execute(&hist::sql_of(&s)) {
+            return format!("bad-setup ## {}", e);
+        }
+    }
+    for (t, n, pad) in &setup.fills {
+        let padding = "x".repeat(*pad);
+        let mut i = 1usize;
+        while i <= *n {
+            let hi = (i + 19).min(*n);
+            let rows: Vec<String> = (i..=hi).map(|j| format!("({}, {}, '{}')", 1000 + j, j, padding)).collect();
+            if let Err(e) = db.execute(&format!("INSERT INTO {} VALUES {}", t, rows.join(", "))) {
+                return format!("bad-setup ## {}", e);
+            }
+            i = hi + 1;
+        }
+    }
+    let tables: Vec<String> = setup.tables.iter().map(|t| t.name.clone()).collect();
+
+    // per-thread programs
+    let mut tids: Vec<usize> = pc.ops.iter().map(|(t, _)| *t).collect();
+    tids.sort();
+    tids.dedup();
+    let db = Arc::new(db);
+    let ticket = Arc::new(AtomicU64::new(1));
+    let start = Instant::now();
+    let barrier = Arc::new(Barrier::new(tids.len().max(1)));
+    let base = Rng::new(setup.pace);
+    let mut shared: Vec<(usize, Arc<ThreadShared>)> = Vec::new();
+    let mut handles = Vec::new();
+    for &tid in &tids {
+        let ops: Vec<TOp> = pc.ops.iter().filter(|(t, _)| *t == tid).map(|(_, o)| o.clone()).collect();
+        let sh = Arc::new(ThreadShared {
+            in_call_since: AtomicU64::new(0),
+            done: AtomicBool::new(false),
+            recs: Mutex::new(Vec::new()),
+            diag: Mutex::new(Vec::new()),
+        });
+        shared.push((tid, sh.clone()));
+        let (db, ticket, barrier) = (db.clone(), ticket.clone(), barrier.clone());
+        let rng = base.fork(&format!("t{}", tid));
+        handles.push(std::thread::spawn(move || client(db, ops, rng, sh, ticket, start, barrier)));
+    }
+    // watchdog
+    let mut hung: Vec<String> = Vec::new();
+    loop {
+        if shared.iter().all(|(_, sh)| sh.done.load(Ordering::SeqCst)) {
+            break;
+        }
+        let now = 1 + start.elapsed().as_millis() as u64;
+        for (tid, sh) in &shared {
+            let since = sh.in_call_since.load(Ordering::SeqCst);
+            if since != 0 && now > since + CALL_TIMEOUT_MS + GRACE_MS {
+                hung.push(format!("t{}#{}", tid, sh.recs.lock().unwrap().len()));
+            }
+        }
+        if !hung.is_empty() {
+            break;
+        }
+        // a client thread that died (panic inside the API call on the client's own thread) never sets `done`
+        if handles.iter().zip(shared.iter()).any(|(h, (_, sh))| h.is_finished() && !sh.done.load(Ordering::SeqCst)) {
+            break;
+        }
+        std::thread::sleep(Duration::from_millis(2));
+    }
+    if hung.is_empty() {
+        for h in handles {
+            let _ = h.join();
+        }
+    }
+    let mut calls: Vec<(u64, String)> = Vec::new();
+    let mut diag: Vec<String> = Vec::new();
+    let mut interr = false;
+    for (tid, sh) in &shared {
+        for r in sh.recs.lock().unwrap().iter() {
+            if (matches!(r.out.as_str(), "other" | "type" | "notfound" | "ddl") || r.out.starts_with('?')) && !(r.must_fail && r.out == "other") {
+                interr = true;
+            }
+            calls.push((r.t0, format!("t{}:{}:{}:{}", tid, r.t0, r.t1, r.out)));
+        }
+        diag.extend(sh.diag.lock().unwrap().iter().cloned());
+    }
+    calls.sort();
+    // final committed contents, read after all clients have finished; the database may be wedged, so under the watchdog too
+    let mut fin: Vec<String> = Vec::new();
+    if hung.is_empty() {
+        for t in &tables {
+            let (db2, sql) = (db.clone(), format!("SELECT * FROM {}", t));
+            match with_timeout(move || db2.execute(&sql).map_err(|e| e.to_string())) {
+                Some(r) => {
+                    let s = show_result(r, true, &mut diag);
+                    if !s.starts_with('[') {
+                        interr = true;
+                    }
+                    fin.push(format!("{}={}", t, s));
+                }
+                None => {
+                    hung.push(format!("final#{}", t));
+                    break;
+                }
+            }
+        }
+    }
+    let panics = PANICS.lock().unwrap().clone();
+    let kind = if let Some(p) = panics.first() {
+        if hung.is_empty() { format!("panic@{}", p) } else { format!("panic@{},hang:{}", p, hung.join(",")) }
+    } else if !hung.is_empty() {
+        format!("hang:{}", hung.join(","))
+    } else if interr {
+        "interr".to_string()
+    } else {
+        "run".to_string()
+    };
+    if !hung.is_empty() {
+        // the stuck threads own clones of the database handle; never wait for them
+        std::mem::forget(db);
+        fin = vec!["-".into()];
+    } else {
+        drop(db);
+    }
+    let mut line = format!("{} {} | {}", kind, calls.into_iter().map(|c| c.1).collect::<Vec<_>>().join(" "), fin.join(" "));
+    if panics.len() > 1 {
+        diag.push(format!("panics={}", panics.join(",")));
+    }
+    if !diag.is_empty() {
+        diag.truncate(6);
+        line.push_str(" ## ");
+        line.push_str(&diag.join(" // "));
+    }
+    line
+}
+
+// ------------------------------------------------------------------------------------------------ generation
+
+const TAB3: &str = "(k:big,v:int,p:text)";
+
+struct Gen<'a> {
+    rng: &'a mut Rng,
+}
+
+impl Gen<'_> {
+    /// autocommit writer on its own table `t`: inserts of fresh keys, deletes of own keys, reads of its own table
+    fn writer_auto(&mut self, tid: usize, t: &str, n: usize, ops: &mut Vec<String>) {
+        let mut keys: Vec<i64> = Vec::new();
+        let mut next = 1i64;
+        for _ in 0..n {
+            let w = self.rng.below(10);
+            if w < 6 || keys.is_empty() {
+                let nrows = if self.rng.chance(1, 4) { 2 } else { 1 };
+                let mut parts = Vec::new();
+                for _ in 0..nrows {
+                    let k = 100 * tid as i64 + next;
+                    next += 1;
+                    keys.push(k);
+                    parts.push(format!("{} {} 'w'", k, self.rng.range(0, 99)));
+                }
+                ops.push(format!("t{} db ins {} {}", tid, t, parts.join(" , ")));
+            } else if w < 8 {
+                let k = keys.remove(self.rng.below(keys.len() as u64) as usize);
+                ops.push(format!("t{} db del {} where k eq {}", tid, t, k));
+            } else {
+                ops.push(format!("t{} db sel {}", tid, t));
+            }
+        }
+    }
+
+    /// session writer on its own table: transactions of 1–3 statements, committed or rolled back
+    fn writer_session(&mut self, tid: usize, t: &str, ntx: usize, ops: &mut Vec<String>) {
+        let mut keys: Vec<i64> = Vec::new();
+        let mut next = 1i64;
+        for _ in 0..ntx {
+            ops.push(format!("t{} begin", tid));
+            let mut ins_here: Vec<i64> = Vec::new();
+            let mut del_here: Vec<i64> = Vec::new();
+            for _ in 0..self.rng.range(1, 3) {
+                let w = self.rng.below(10);
+                if w < 5 || keys.is_empty() {
+                    let k = 100 * tid as i64 + next;
+                    next += 1;
+                    ins_here.push(k);
+                    ops.push(format!("t{} ins {} {} {} 's'", tid, t, k, self.rng.range(0, 99)));
+                } else if w < 7 {
+                    let k = keys.remove(self.rng.below(keys.len() as u64) as usize);
+                    del_here.push(k);
+                    ops.push(format!("t{} del {} where k eq {}", tid, t, k));
+                } else {
+                    ops.push(format!("t{} sel {}", tid, t));
+                }
+            }
+            if self.rng.chance(3, 4) {
+                ops.push(format!("t{} commit", tid));
+                keys.extend(ins_here);
+            } else {
+                ops.push(format!("t{} rollback", tid));
+                keys.extend(del_here);
+            }
+        }
+    }
+
+    /// reader: autocommit selects and read-only sessions (two reads of the same table = repeatable-read probe)
+    fn reader(&mut self, tid: usize, tables: &[String], n: usize, ops: &mut Vec<String>) {
+        let mut i = 0;
+        while i < n {
+            let t = self.rng.pick(tables).clone();
+            if self.rng.chance(1, 3) {
+                ops.push(format!("t{} begin", tid));
+                ops.push(format!("t{} sel {}", tid, t));
+                let t2 = if self.rng.chance(1, 2) { t.clone() } else { self.rng.pick(tables).clone() };
+                ops.push(format!("t{} sel {}", tid, t2));
+                ops.push(format!("t{} {}", tid, if self.rng.chance(1, 2) { "commit" } else { "rollback" }));
+                i += 2;
+            } else {
+                if self.rng.chance(1, 4) {
+                    ops.push(format!("t{} db sel {} where v lt {}", tid, t, self.rng.range(10, 90)));
+                } else {
+                    ops.push(format!("t{} db sel {}", tid, t));
+                }
+                i += 1;
+            }
+        }
+    }
+}
+
+/// interleaves the per-thread op lists into one list (order across threads is irrelevant for execution)
+fn merge(rng: &mut Rng, per_thread: Vec<Vec<String>>) -> Vec<String> {
+    let mut pos = vec![0usize; per_thread.len()];
+    let mut out = Vec::new();
+    loop {
+        let live: Vec<usize> = (0..per_thread.len()).filter(|i| pos[*i] < per_thread[*i].len()).collect();
+        if live.is_empty() {
+            return out;
+        }
+        let i = *rng.pick(&live);
+        out.push(per_thread[i][pos[i]].clone());
+        pos[i] += 1;
+    }
+}
+
+#[derive(Clone, Copy, PartialEq, Debug)]
+enum Shape {
+    /// 2 threads, autocommit inserts/deletes/selects, each on its own table
+    AutoDistinct,
+    /// 2–3 writers (autocommit or sessions) on distinct tables + 1–2 readers of static tables
+    WritersReaders,
+    /// session writers on distinct tables, readers (sessions with repeated reads) of static tables, 5–8 threads
+    Sessions,
+    /// as WritersReaders, one written and one static table preloaded to several pages (fill); cache 10000 or 32–64 pages
+    Deep,
+    /// readers scan the very tables that the writers write (each table still has one writer); some tables of one page,
+    /// some preloaded to several pages so that scans run next to splits
+    SameTableReaders,
+    /// begin/commit stress: 2 session writers (6–8 short transactions, some rolled back), 2 autocommit writers that commit
+    /// rapidly on tables of their own, 3–4 readers that keep selecting the session writers' tables — every read must be
+    /// free of uncommitted and rolled-back rows and consistent with one order of the commits
+    SnapshotRace,
+    /// scans next to splits: one writer appends 100–160 rows (multi-row inserts) to a table preloaded to several pages, so
+    /// that its right-most leaves split and are redistributed, while 3 readers keep scanning that table
+    ScanVsSplit,
+    /// several writers insert into / delete from the SAME table (region `same_table_writers`)
+    SameTableWriters,
+    /// as Deep with a cache of 12–20 pages, below the working set: frames are evicted while other threads pin pages
+    SmallCache,
+    /// as WritersReaders plus a thread that calls Database::flush (region `flush_concurrent`)
+    FlushConcurrent,
+    /// as WritersReaders plus `db subq` statements, at least as many as pool workers (region `panic_stmt`)
+    SubQ,
+}
+
+fn gen_snapshot_race(rng: &mut Rng) -> Case {
+    let mut per_thread: Vec<Vec<String>> = Vec::new();
+    for (t, tab) in [(1usize, "s1"), (2, "s2")] {
+        let mut l = Vec::new();
+        let mut k = 0;
+        for _ in 0..rng.range(6, 8) {
+            l.push(format!("t{} begin", t));
+            for _ in 0..1 {
+                k += 1;
+                l.push(format!("t{} ins {} {} {} 's'", t, tab, 100 * t + k, k));
+            }
+            l.push(format!("t{} {}", t, if rng.chance(7, 10) { "commit" } else { "rollback" }));
+        }
+        per_thread.push(l);
+    }
+    for (t, tab) in [(3usize, "a1"), (4, "a2")] {
+        per_thread.push((0..rng.range(16, 20)).map(|i| format!("t{} db ins {} {} {} 'w'", t, tab, 100 * t as i64 + i, i)).collect());
+    }
+    let nreaders = rng.range(3, 4) as usize;
+    for t in 5..5 + nreaders {
+        per_thread.push((0..rng.range(16, 20)).map(|_| format!("t{} db sel {}", t, if rng.chance(1, 2) { "s1" } else { "s2" })).collect());
+    }
+    let nthreads = per_thread.len();
+    let ops = merge(rng, per_thread);
+    let tabs: Vec<String> = ["s1", "s2", "a1", "a2"].iter().map(|n| format!("tab={}{}", n, TAB3)).collect();
+    let line = format!("threads {} cache=10000 pool=8 pace={} | {}", tabs.join(" "), rng.below(1_000_000_000), ops.join(" ; "));
+    let tags = ["nt", "shape:SnapshotRace", "session", "auto_ins", "auto_sel", "rollback", "scan_vs_write", "clean"];
+    let mut c = Case::new(line, &tags);
+    c.tags.push(format!("threads{}", nthreads));
+    c
+}
+
+fn gen_scan_vs_split(rng: &mut Rng) -> Case {
+    let mut per_thread: Vec<Vec<String>> = Vec::new();
+    let pad = "y".repeat(40);
+    let mut k = 100;
+    let mut w = Vec::new();
+    for _ in 0..rng.range(6, 8) {
+        let rows: Vec<String> = (0..rng.range(16, 20))
+            .map(|_| {
+                k += 1;
+                format!("{} {} '{}'", k, rng.range(0, 99), pad)
+            })
+            .collect();
+        w.push(format!("t1 db ins w1 {}", rows.join(" , ")));
+    }
+    per_thread.push(w);
+    for t in 2..=4 {
+        let mut l = Vec::new();
+        for _ in 0..rng.range(8, 12) {
+            if rng.chance(1, 4) {
+                l.push(format!("t{} begin", t));
+                l.push(format!("t{} sel w1 where k lt 1000", t));
+                l.push(format!("t{} sel w1 where k lt 1000", t));
+                l.push(format!("t{} commit", t));
+            } else {
+                l.push(format!("t{} db sel w1 where k lt 1000", t));
+            }
+        }
+        per_thread.push(l);
+    }
+    let ops = merge(rng, per_thread);
+    let line = format!(
+        "threads tab=w1{} fill=w1:{}:{} cache=10000 pool=8 pace={} | {}",
+        TAB3,
+        rng.range(100, 160),
+        rng.range(60, 100),
+        rng.below(1_000_000_000),
+        ops.join(" ; ")
+    );
+    Case::new(line, &["nt", "shape:ScanVsSplit", "threads4", "deep_tree", "session", "auto_ins", "auto_sel", "scan_vs_write", "clean"])
+}
+
+fn gen_case(rng: &mut Rng, shape: Shape, small_cache: bool) -> Case {
+    if shape == Shape::SnapshotRace {
+        return gen_snapshot_race(rng);
+    }
+    if shape == Shape::ScanVsSplit {
+        return gen_scan_vs_split(rng);
+    }
+    let mut g = Gen { rng };
+    let (nw, nr) = match shape {
+        Shape::AutoDistinct => (2usize, 0usize),
+        Shape::WritersReaders => (g.rng.range(2, 3) as usize, g.rng.range(1, 2) as usize),
+        Shape::Sessions => (g.rng.range(3, 5) as usize, g.rng.range(2, 3) as usize),
+        Shape::Deep => (g.rng.range(2, 3) as usize, g.rng.range(1, 2) as usize),
+        Shape::SameTableReaders => (g.rng.range(1, 3) as usize, g.rng.range(1, 3) as usize),
+        Shape::SameTableWriters => (g.rng.range(2, 4) as usize, g.rng.range(0, 1) as usize),
+        Shape::SnapshotRace | Shape::ScanVsSplit => unreachable!(),
+        Shape::SmallCache => (g.rng.range(2, 3) as usize, g.rng.range(1, 2) as usize),
+        Shape::FlushConcurrent | Shape::SubQ => (g.rng.range(2, 3) as usize, 1usize),
+    };
+    let deep = matches!(shape, Shape::Deep | Shape::SmallCache);
+    let mut setup: Vec<String> = Vec::new();
+    let mut wtables: Vec<String> = Vec::new();
+    for i in 1..=nw {
+        let name = if shape == Shape::SameTableWriters { "w1".to_string() } else { format!("w{}", i) };
+        if !wtables.contains(&name) {
+            setup.push(format!("tab={}{}", name, TAB3));
+            // at most two filled tables per case: every inserted row adds a version to its table's catalog row, and a
+            // catalog tree with more than three such big rows splits into big cells (the C10 finding KF-C10-divider-full-copy)
+            if (deep && i == 1)
+                || (shape == Shape::SameTableReaders && i == 1 && g.rng.chance(1, 2))
+                || (!deep && shape != Shape::AutoDistinct && shape != Shape::SameTableReaders && i == 1 && g.rng.chance(1, 4))
+            {
+                setup.push(format!("fill={}:{}:{}", name, g.rng.range(60, 160), g.rng.range(40, 100)));
+            } else {
+                for k in 1..=g.rng.range(0, 3) {
+                    setup.push(format!("row={}:{},{},'i'", name, k, 10 * k));
+                }
+            }
+        }
+        wtables.push(name);
+    }
+    // static tables for the readers of the clean region
+    let mut rtables: Vec<String> = Vec::new();
+    if nr > 0 {
+        for i in 1..=2 {
+            let name = format!("r{}", i);
+            setup.push(format!("tab={}{}", name, TAB3));
+            if deep && i == 1 {
+                setup.push(format!("fill={}:{}:{}", name, g.rng.range(60, 160), g.rng.range(40, 100)));
+            } else {
+                for k in 1..=g.rng.range(1, 4) {
+                    setup.push(format!("row={}:{},{},'i'", name, k, 10 * k));
+                }
+            }
+            rtables.push(name);
+        }
+    }
+    let cache = if shape == Shape::SmallCache {
+        g.rng.range(12, 20)
+    } else if small_cache {
+        g.rng.range(32, 64)
+    } else {
+        10000
+    };
+    setup.push(format!("cache={}", cache));
+    let pool = if shape == Shape::SubQ { g.rng.range(2, 3) } else { g.rng.range(2, 8) };
+    setup.push(format!("pool={}", pool));
+    setup.push(format!("pace={}", g.rng.below(1_000_000_000)));
+    let mut per_thread: Vec<Vec<String>> = Vec::new();
+    let mut tid = 0usize;
+    for i in 0..nw {
+        tid += 1;
+        let mut ops = Vec::new();
+        let session = match shape {
+            Shape::AutoDistinct => false,
+            Shape::Sessions => true,
+            _ => g.rng.chance(1, 2),
+        };
+        if session {
+            let ntx = g.rng.range(2, 4) as usize;
+            g.writer_session(tid, &wtables[i], ntx, &mut ops);
+        } else {
+            let n = g.rng.range(4, 9) as usize;
+            g.writer_auto(tid, &wtables[i], n, &mut ops);
+        }
+        per_thread.push(ops);
+    }
+    for _ in 0..nr {
+        tid += 1;
+        let mut ops = Vec::new();
+        let tabs = if shape == Shape::SameTableReaders { wtables.clone() } else { rtables.clone() };
+        let n = g.rng.range(3, 7) as usize;
+        g.reader(tid, &tabs, n, &mut ops);
+        per_thread.push(ops);
+    }
+    if shape == Shape::FlushConcurrent {
+        tid += 1;
+        per_thread.push((0..g.rng.range(2, 4)).map(|_| format!("t{} flush", tid)).collect());
+    }
+    if shape == Shape::SubQ {
+        // at least as many failing statements as pool workers, issued by two threads; afterwards ordinary statements
+        let mut left = pool + g.rng.range(0, 1);
+        for _ in 0..2 {
+            tid += 1;
+            let mut ops = Vec::new();
+            let n = (left + 1) / 2;
+            for _ in 0..n.min(left) {
+                ops.push(format!("t{} db subq {}", tid, rtables[0]));
+            }
+            left -= n.min(left);
+            ops.push(format!("t{} db sel {}", tid, rtables[0]));
+            ops.push(format!("t{} db sel {}", tid, rtables[1]));
+            per_thread.push(ops);
+        }
+    }
+    let nthreads = per_thread.len();
+    let ops = merge(g.rng, per_thread);
+    let line = format!("threads {} | {}", setup.join(" "), ops.join(" ; "));
+    let mut tags: Vec<String> = vec!["nt".into(), format!("threads{}", nthreads), format!("shape:{:?}", shape)];
+    if small_cache && shape != Shape::SmallCache {
+        tags.push("modest_cache".into());
+    }
+    if line.contains("fill=") {
+        tags.push("deep_tree".into());
+    }
+    for (w, t) in [(" begin", "session"), (" db ins", "auto_ins"), (" db del", "auto_del"), (" db sel", "auto_sel"), (" rollback", "rollback")] {
+        if line.contains(w) {
+            tags.push(t.into());
+        }
+    }
+    match shape {
+        Shape::SameTableReaders => {
+            tags.push("scan_vs_write".into());
+            tags.push("clean".into());
+        }
+        Shape::SameTableWriters => tags.push("same_table_writers".into()),
+        Shape::SmallCache => {
+            tags.push("small_cache".into());
+            tags.push("clean".into());
+        }
+        Shape::FlushConcurrent => tags.push("flush_concurrent".into()),
+        Shape::SubQ => tags.push("panic_stmt".into()),
+        _ => tags.push("clean".into()),
+    }
+    Case { line, tags }
+}
+
+impl Engine for ThreadsEngine {
+    fn gen_cases(&self, rng: &mut Rng, tier: Tier) -> Vec<Case> {
+        let mut out = Vec::new();
+        let quick = tier == Tier::Quick;
+        let clean = [
+            Shape::AutoDistinct,
+            Shape::WritersReaders,
+            Shape::Sessions,
+            Shape::Deep,
+            Shape::SameTableReaders,
+            Shape::SnapshotRace,
+            Shape::ScanVsSplit,
+            Shape::SmallCache,
+        ];
+        // cases of the three known-finding regions are spread among the clean ones (a hang costs its supervisor slot 10 s)
+        let regions = [Shape::SameTableWriters, Shape::FlushConcurrent, Shape::SubQ, Shape::SameTableWriters];
+        let rounds = if quick { 40 } else { 600 };
+        for r in 0..rounds {
+            for s in clean {
+                let small = s == Shape::Deep && rng.chance(1, 2);
+                out.push(gen_case(rng, s, small));
+            }
+            // quick: 14 region cases in ~330 (4 %); thorough: 400 in ~5200 (8 %)
+            let every = if quick { 3 } else { 3 };
+            if r % every == 0 {
+                let s = regions[(r / every) % regions.len()];
+                out.push(gen_case(rng, s, false));
+                if !quick {
+                    out.push(gen_case(rng, regions[(r / every + 2) % regions.len()], false));
+                }
+            }
+        }
+        out
+    }
+    fn exec(&mut self, line: &str) -> String {
+        run_case(line)
+    }
+    /// backstop only: the engine's own watchdog answers `hang:…` after 10 s per call
+    fn timeout_ms(&self) -> u64 {
+        180_000
+    }
 }
